@@ -203,7 +203,7 @@ func DrawHistory(r *Rng, cfg HistConfig) (*Scenario, *histWorld) {
 		if broken {
 			// a run that must fail at load and change nothing, then repair
 			ops = append(ops, Op{Kind: "run", Run: w.drawRun(r, cfg)})
-			ops = append(ops, Op{Kind: "unbreak", Path: "go.mod", Content: "module " + m.ModPath + "\n\ngo " + m.GoVer + "\n"})
+			ops = append(ops, Op{Kind: "unbreak", Path: "go.mod", Content: m.GoMod()})
 			broken = false
 			continue
 		}
@@ -292,7 +292,7 @@ func DrawHistory(r *Rng, cfg HistConfig) (*Scenario, *histWorld) {
 	}
 	if broken {
 		ops = append(ops, Op{Kind: "run", Run: w.drawRun(r, cfg)})
-		ops = append(ops, Op{Kind: "unbreak", Path: "go.mod", Content: "module " + m.ModPath + "\n\ngo " + m.GoVer + "\n"})
+		ops = append(ops, Op{Kind: "unbreak", Path: "go.mod", Content: m.GoMod()})
 	}
 	// faults are only interesting for what the next run does with the state they left
 	final := w.drawRun(r, cfg)
